@@ -988,12 +988,13 @@ type pkgSpec struct {
 }
 
 type tree struct {
-	importers []string // extra importer files created by the generator (below nested package.json files)
-	sorted    []string // file paths, sorted (for deterministic picks)
-	root      string
-	files     map[string]string // rel path -> contents
-	links     map[string]string // rel path -> target (relative symlink)
-	pkgs      []*pkgSpec
+	keepCaseCollisions bool     // witness trees only
+	importers          []string // extra importer files created by the generator (below nested package.json files)
+	sorted             []string // file paths, sorted (for deterministic picks)
+	root               string
+	files              map[string]string // rel path -> contents
+	links              map[string]string // rel path -> target (relative symlink)
+	pkgs               []*pkgSpec
 }
 
 func (t *tree) file(p string) {
@@ -1152,6 +1153,35 @@ func (t *tree) materialise() error {
 		}
 	}
 	paths = kept
+	// no two entries of one directory may differ only by letter case: esbuild
+	// keeps directory entries in a map keyed by the lower-cased name (known
+	// finding D11, replayed by the witness "case-colliding-directory-entries");
+	// the random trees stay clear of it
+	seenCase := map[string]string{}
+	kept2 := make([]string, 0, len(paths))
+	for _, p := range paths {
+		ok := true
+		parts := strings.Split(p, "/")
+		if t.keepCaseCollisions {
+			parts = nil
+		}
+		for i := range parts {
+			key := strings.ToLower(strings.Join(parts[:i+1], "/"))
+			actual := strings.Join(parts[:i+1], "/")
+			if prev, have := seenCase[key]; have && prev != actual {
+				ok = false
+				break
+			}
+		}
+		if !ok {
+			continue
+		}
+		for i := range parts {
+			seenCase[strings.ToLower(strings.Join(parts[:i+1], "/"))] = strings.Join(parts[:i+1], "/")
+		}
+		kept2 = append(kept2, p)
+	}
+	paths = kept2
 	t.sorted = paths
 	for _, p := range paths {
 		c := t.files[p]
@@ -1718,7 +1748,7 @@ func runGlue(r *Rng, n int, tmp string, st *Stats) {
 				st.Note("glue-flaky", c.Spec, false)
 				continue
 			}
-			input := map[string]interface{}{"level": "full-stack", "importer": rel, "specifier": c.Spec, "kind": c.Kind, "observed_through": how,
+			input := map[string]interface{}{"level": "full-stack", "tree_root_if_kept": root, "importer": rel, "specifier": c.Spec, "kind": c.Kind, "observed_through": how,
 				"tree_package_json_files": pkgsDump(), "symlinks": t.links}
 			tags := t.tagsFor(rel, c.Spec)
 			if len(tags) > 0 {
@@ -1736,7 +1766,9 @@ func runGlue(r *Rng, n int, tmp string, st *Stats) {
 		if ti == 0 && len(cases) > 2 {
 			st.Sample(map[string]interface{}{"tree_package_json_files": pkgsDump(), "first_specifiers": []interface{}{cases[0].Spec, cases[1].Spec, cases[2].Spec}})
 		}
-		os.RemoveAll(root)
+		if os.Getenv("VERIF_C11_KEEP") == "" {
+			os.RemoveAll(root)
+		}
 	}
 	for k, v := range known {
 		st.Histogram[k] += v
@@ -1771,6 +1803,7 @@ var witnesses = []witness{
 	{"imports-specifier-hash-slash", "hash-slash", nil, "#/a", []string{"a.js"}, jobj("#/*", "./*.js"), nil},
 	{"imports-target-is-url", "url-target", nil, "#fs", nil, jobj("#fs", "node:fs"), nil},
 	{"star-in-specifier", "star-in-specifier", jobj("./index/*/b", "./index/index.mjs"), "pkg/index/*/b", []string{"index/index.mjs"}, nil, nil},
+	{"case-colliding-directory-entries", "case-colliding-entries", jobj("./x", "./index/A"), "pkg/x", []string{"index/A", "index/a/b.js"}, nil, nil},
 	{"percent-encoded-subpath-no-exports", "percent-encoded-relative-specifier", nil, "pkgn/lib/%61.js", []string{"node_modules/pkgn/lib/a.js", "node_modules/pkgn/package.json"}, nil, []string{"import"}},
 	{"percent-encoded-relative-import", "percent-encoded-relative-specifier", nil, "./%75til.js", []string{"util.js"}, nil, []string{"import"}},
 }
@@ -1789,7 +1822,7 @@ func runWitnesses(tmp string, st *Stats) {
 			continue
 		}
 		root = realpath(root)
-		t := &tree{root: root, files: map[string]string{}, links: map[string]string{}}
+		t := &tree{root: root, files: map[string]string{}, links: map[string]string{}, keepCaseCollisions: true}
 		if w.exports != nil {
 			t.files["node_modules/pkg/package.json"] = `{"name":"pkg","exports":` + w.exports.text() + "}"
 			for _, f := range w.files {
@@ -1848,7 +1881,9 @@ func runC11(seed uint64, n int, tier string, outDir string) []*Stats {
 	if err != nil {
 		panic(err)
 	}
-	defer os.RemoveAll(tmp)
+	if os.Getenv("VERIF_C11_KEEP") == "" {
+		defer os.RemoveAll(tmp)
+	}
 
 	stAlg := NewStats("c11-algorithm", seed)
 	ao := &algOut{items: map[string][]string{}}
